@@ -24,6 +24,16 @@ Theorem C12_complete : forall (A : Type) (c : cfg) (atts : list (list (chunk A))
 Proof. exact complete_all. Qed.
 Print Assumptions C12_complete.
 
+(* Error path: teardown flushes the writers one by one.  Whatever the state of the `stdout:` writer - bytes still
+   buffered, a target that rejects writes (a full volume, /dev/full), a sticky write error - what the log writer still
+   buffers reaches the file named by State.Log. *)
+Theorem C12_teardown_flushes_log : forall (A : Type) (s : st A) (lw lf path : nat) (bl : list A),
+  n_done (nd A s) = false -> n_logW (nd A s) = Some lw -> sink A s lw lf path bl ->
+  (forall ow, n_outW (nd A s) = Some ow -> ow <> lw /\ fd_path (fdd A s (bw_fd A (buf A s ow))) <> path) ->
+  dsk A (teardown A s) path = dsk A s path ++ bl.
+Proof. exact teardown_flushes_log. Qed.
+Print Assumptions C12_teardown_flushes_log.
+
 (* the sequence that reaches the log is an order-preserving merge of the attempt's stdout and - unless `stderr:` is
    configured - its stderr: every byte of either stream is there, in order *)
 Theorem C12_log_is_merge : forall (A : Type) (c : cfg) (cs : list (chunk A)),
@@ -59,6 +69,14 @@ Example C12_big_output_fixed :
   N.of_nat (length (dsk nat r (logpath nat r))) = 65537%N /\
   match outvar nat r with Some v => N.of_nat (length v) = 65537%N | None => False end.
 Proof. exact big_output_fixed. Qed.
+(* the premises of C12_teardown_flushes_log are met by a run whose stdout: target starts to reject writes: the log
+   still receives everything, the stdout: file nothing *)
+Example C12_teardown_log_with_failing_stdout :
+  let c := mkc true false false false in
+  let s := exec nat c init (body nat 0 [(Out, [1; 2; 3]); (Err, [4])]) in
+  let s' := match n_outF (nd nat s) with Some f => close nat s f | None => s end in
+  dsk nat (teardown nat s') (logpath nat s') = [1; 2; 3; 4] /\ dsk nat (teardown nat s') P_STDOUT = [].
+Proof. exact teardown_log_with_failing_stdout. Qed.
 (* non-vacuity: every setting on, three attempts *)
 Example C12_nonvacuous :
   let c := mkc true true true true in
